@@ -86,7 +86,8 @@ def C(name, label, build, **kw):
 
 
 def seed_kw(rng):
-    return int(rng.integers(1 << 30))
+    # seed 0 is a valid integer seed (and a popular one): drawn often
+    return 0 if rng.random() < 0.15 else int(rng.integers(1 << 30))
 
 
 # ---- act_many / act_one / act_two ------------------------------------------------
